@@ -409,6 +409,31 @@ pub fn run_base(idx: u64, base: &Value, out: &mut Out) -> (u64, u64, [u64; 4]) {
             }
         }
     }
+    // (2c) inside one sample table / track fragment: a 64-bit quantity just below 2^64 together with a
+    //      32-bit word set to a huge value (a count or a samples-per-chunk that makes an offset
+    //      computation overflow only after billions of steps)
+    if plan["field_singles"].as_bool().unwrap_or(false) {
+        let fs: Vec<(usize, usize, u64, u64)> = base["fields"].as_array().map(|a| a.iter()
+            .map(|f| (f[0].as_u64().unwrap_or(0) as usize, f[1].as_u64().unwrap_or(4) as usize, f[2].as_u64().unwrap_or(9), f[4].as_u64().unwrap_or(u64::MAX))).collect()).unwrap_or_default();
+        for &(qo, qw, qrole, qg) in fs.iter() {
+            if qrole != 3 || qw != 8 || qo + 8 > len || qg == u64::MAX {
+                continue;
+            }
+            for &(wo, ww, wrole, wg) in fs.iter() {
+                if wg != qg || wrole != 2 || ww != 4 || wo + 4 > len || (wo < qo + 8 && qo < wo + 4) {
+                    continue;
+                }
+                for &qv in [u64::MAX - 0xFFFF_FFFF + 3, u64::MAX - 0x7FFF_FFFF, u64::MAX - 0xFFFF].iter() {
+                    for &wv in [0xFFFF_FFFFu64, 0x7FFF_FFFF].iter() {
+                        let mut b = bytes.clone();
+                        put(&mut b, qo, 8, qv);
+                        put(&mut b, wo, 4, wv);
+                        go(&mut blk, &b, json!([[qo, 8, big(qv)], [wo, 4, big(wv)]]));
+                    }
+                }
+            }
+        }
+    }
     phases[1] = mark(&blk, prev);
     prev = blk.total;
     let npairs = plan["pairs"].as_u64().unwrap_or(0);
